@@ -143,6 +143,10 @@ payloads that were ever rendered (`Payloads.ofLists`). -/
 structure Payloads where
   bench : Text → Option Nat
   run : Text → Option (Nat × Nat)
+  /-- `none`: a benchmark data file.  `some ok`: a profile data file (`_ProfileFilePersistence`);
+  `ok js` says whether `json.loads` accepts the last column `js` (the loader of the pinned tree
+  does not look: `some (fun _ => true)`) -/
+  profile : Option (Text → Bool) := none
 
 def lookup {β} (t : List (Text × β)) (p : Text) : Option β :=
   match t with
@@ -150,10 +154,10 @@ def lookup {β} (t : List (Text × β)) (p : Text) : Option β :=
   | (k, v) :: rest => if k = p then some v else lookup rest p
 
 def Payloads.ofLists (b : List (Text × Nat)) (r : List (Text × Nat × Nat)) : Payloads :=
-  ⟨lookup b, lookup r⟩
+  { bench := lookup b, run := lookup r }
 
 /-- no payload is accepted -/
-def Payloads.none : Payloads := ⟨fun _ => Option.none, fun _ => Option.none⟩
+def Payloads.none : Payloads := { bench := fun _ => Option.none, run := fun _ => Option.none }
 
 def benchPrefix : Text := "# benchmark: ".toList
 def runPrefix : Text := "# run_id: ".toList
@@ -182,12 +186,40 @@ def classifyComment (pl : Payloads) (l : Text) : Rec :=
   else if sessionPrefix.isPrefixOf l then .session
   else .comment
 
+/-- a profile data line: `ProfileData.from_str_list` (profile_data.py:33-44) — the JSON column
+is checked first (repaired loader), then invocation, number of iterations and the run id column
+(second to last).  Every line is a complete data point: it is modelled as a data point whose only
+measurement is its total, with the JSON text as value. -/
+def classifyProfile (ok : Text → Bool) (f : List Text) : Rec :=
+  if !ok (f.getLast?.getD []) then .dataErr .value else
+  match pyNat? (f.headD []) with
+  | none => .dataErr .value
+  | some inv =>
+  match f[1]? with
+  | none => .dataErr .index
+  | some f1 =>
+  match pyNat? f1 with
+  | none => .dataErr .value
+  | some nit =>
+  match ((f.drop 2).dropLast).getLast? with
+  | none => .dataErr .index
+  | some idx =>
+  match pyNat? idx with
+  | none => .dataErr .value
+  | some i => .meas ⟨inv, nit, f.getLast?.getD [], totalName, true, i⟩
+
+/-- a data line of a benchmark or of a profile data file -/
+def classifyLine (pl : Payloads) (f : List Text) : Rec :=
+  match pl.profile with
+  | none => classifyData f
+  | some ok => classifyProfile ok f
+
 /-- one line → one record (persistence.py:282, 311, 315) -/
 def classify (pl : Payloads) (hdr : Text) (l : Line) : Rec :=
   match l.content with
   | '#' :: _ => classifyComment pl l.content
   | _ => if l.content = hdr && l.terminated then .header
-         else classifyData (splitOn '\t' l.content)
+         else classifyLine pl (splitOn '\t' l.content)
 
 /-! ## Level 2: records -/
 
@@ -465,13 +497,15 @@ the text (Python's universal newlines would split there) -/
 def noCR (t : Text) : Bool := !t.contains '\r'
 
 /-- a command line as `subprocess.list2cmdline(sys.argv)` gives it for the generated sessions:
-one line, no tab, not ending in `}` -/
+one line, no tab, not ending in `}`, `]` or `"` (what a JSON payload ends in) -/
 def cmdOk (cmd : Text) : Bool :=
-  !cmd.contains '\t' && !cmd.contains '\n' && cmd.getLast? != some '}'
+  !cmd.contains '\t' && !cmd.contains '\n' && cmd.getLast? != some '}' && cmd.getLast? != some ']'
+    && cmd.getLast? != some '"'
 
 /-- every JSON payload the decoders accept is an object: it ends in `}` -/
 def PlOk (pl : Payloads) : Prop :=
   (∀ js k, pl.bench js = some k → js.getLast? = some '}') ∧ (∀ js kb, pl.run js = some kb → js.getLast? = some '}')
+    ∧ (∀ ok js, pl.profile = some ok → ok js = true → js.getLast? = some ']' ∨ js.getLast? = some '"')
 
 /-- number of `total` measurement records: each completes one data point -/
 def countTotals (rs : List Rec) : Nat :=
